@@ -16,6 +16,8 @@ pub fn run(stim: &Value, rec: &Rec) {
         "encode" => {
             let d = Duration::new(u64_of(&stim["secs"]), stim["nanos"].as_u64().unwrap_or(0) as u32);
             let mut r = tonic::Request::new(());
+            // stim.prior_ms: the request already had a timeout (a default set by a helper) which this call replaces
+            if let Some(ms) = stim["prior_ms"].as_u64() { r.set_timeout(Duration::from_millis(ms)); }
             r.set_timeout(d);
             let v = r.metadata().get("grpc-timeout").map(|v| v.as_bytes().to_vec()).unwrap_or_default();
             let n = r.metadata().get_all("grpc-timeout").iter().count();
@@ -66,6 +68,7 @@ pub fn gen(seed: u64, tier: &str) -> Vec<Value> {
         for i in 0..nd { let d = if i == 0 { rng.gen_range(1..10) } else { match rng.gen_range(0..4) { 0 => 0, 1 => 9, _ => rng.gen_range(0..10) } }; v = v * 10 + d as u128; }
         let v = v.min(max_ns);
         out.push(json!({"kind":"encode","class":"random_duration","secs":digits_of(v / 1_000_000_000),"nanos":(v % 1_000_000_000) as u64}));
+        if out.len() % 3 == 0 { let k = out.len(); out.last_mut().unwrap()["prior_ms"] = json!([60_000u64, 1, 0, 3_600_000][(k / 3) % 4]); }
     }
     // hostile / arbitrary header strings
     let units = b"HMSmunhsUN x.";
